@@ -101,9 +101,13 @@ impl C04 {
             let mut want = pl.clone();
             std::mem::swap(&mut want.s, &mut want.t);
             let got = from_lax_raw(&d);
-            ctx.check(got == want && wf_lax(&d).is_empty(), "lax::dagger/swaps-interfaces-only/value/pending", || json!({"input": show_lax(&pl), "observed": show_lax(&got), "expected_exactly": show_lax(&want)}));
+            let norm = |q: &Vec<(usize, usize)>| { let mut v: Vec<(usize, usize)> = q.iter().map(|&(x, y)| (x.min(y), x.max(y))).collect(); v.sort(); v };
+            // nodes, hyperedges and the swapped interfaces exactly; the pending pairs as a multiset of unordered pairs
+            let same = got.w == want.w && got.e == want.e && got.s == want.s && got.t == want.t && norm(&got.q) == norm(&want.q);
+            ctx.check(same && wf_lax(&d).is_empty(), "lax::dagger/swaps-interfaces-only/value/pending", || json!({"input": show_lax(&pl), "observed": show_lax(&got), "expected_exactly": show_lax(&want)}));
             if let Some(dd) = lib(ctx, "lax::dagger", "any", &input, || Spider::dagger(&d)) {
-                ctx.check(dd == lxp, "lax::dagger/involution/value/pending", || json!({"input": show_lax(&pl)}));
+                let back = from_lax_raw(&dd);
+                ctx.check(back.w == pl.w && back.e == pl.e && back.s == pl.s && back.t == pl.t && norm(&back.q) == norm(&pl.q), "lax::dagger/involution/value/pending", || json!({"input": show_lax(&pl), "observed": show_lax(&back)}));
             }
         }
         // lax contravariance and distribution over tensor: right operand with pending pairs, left without
